@@ -43,6 +43,9 @@ type bSummary struct {
 
 func runEngineB(p *plan, tier string, base uint64, workers int, scale float64, replay string) int {
 	t0 := time.Now()
+	if exe, err := os.Executable(); err == nil {
+		engb.AgentBinary = exe
+	}
 	bin, err := buildEngineB()
 	if err != nil {
 		fmt.Fprintf(os.Stderr, "BUILD-FAILED: %v\n", err)
